@@ -22,6 +22,9 @@ var substs = []subst{
 	{"media/global.go", map[string]string{"github.com/cnotch/scheduler": "verif/harness/simsched"}},
 	{"av/format/hls/playlist.go", map[string]string{"github.com/cnotch/scheduler": "verif/harness/simsched"}},
 	{"service/service.go", map[string]string{"github.com/cnotch/scheduler": "verif/harness/simsched"}},
+	{"service/rtsp/session_roles.go", map[string]string{"net": "verif/harness/simnet"}},
+	{"service/rtsp/multicast_proxy.go", map[string]string{"net": "verif/harness/simnet"}},
+	{"service/rtsp/pull_client.go", map[string]string{"net": "verif/harness/simnet"}},
 	{"utils/io.go", map[string]string{"os": "verif/harness/simfs"}},
 	{"provider/auth/json.go", map[string]string{"os": "verif/harness/simfs", "io/ioutil": "verif/harness/simfs"}},
 	{"provider/route/json.go", map[string]string{"os": "verif/harness/simfs", "io/ioutil": "verif/harness/simfs"}},
